@@ -297,6 +297,37 @@ fn run_c13_with(case: &GlideCase, budget: u64, stats: &mut Stats, robust: bool) 
     Ok(CaseInfo { nontrivial: switched_mid_glide && fast_time_seen })
 }
 
+/// run the schedule without any oracle (used by C17: only panics matter)
+pub fn run_plain(case: &GlideCase, budget: u64) -> u64 {
+    let mut g = GlideProcessor::new(case.fs);
+    let fs = case.fs as f64;
+    let (mut x, mut y, mut n) = (0.0f32, 0.0f32, 0u64);
+    for op in &case.ops {
+        let mut run = 0u64;
+        match op {
+            GlideOp::SetTime(t) => g.set_time(*t),
+            GlideOp::FastSwitch(u) => g.set_time((*u as f64 * 2.0 / fs) as f32),
+            GlideOp::Input(v) => x = *v,
+            GlideOp::InputCurrent => x = y,
+            GlideOp::Run(k) => run = *k as u64,
+            GlideOp::RunSettle => run = 2000,
+            GlideOp::TimeBurst { a, b, n: k } => {
+                for _ in 0..*k {
+                    g.set_time(*a);
+                    g.process(x);
+                    g.set_time(*b);
+                    y = g.process(x);
+                }
+            }
+        }
+        for _ in 0..run.min(budget.saturating_sub(n)) {
+            y = g.process(x);
+            n += 1;
+        }
+    }
+    n
+}
+
 // ------------------------------------------------------------------------------------------------ C14
 
 /// a processor on which the time `c` is in effect under every reading of the statement: two calls, each farther than the
